@@ -220,6 +220,23 @@ theorem R_tryConsume (m : Nat) (tys : List Nat) :
     exact R_bind (R_next Y m) (fun _ _ => R_tryConsumeCore Y m tys)
   · intro _; exact R_tryConsumeCore Y m tys
 
+/-- the loop `for { tryConsume(tys) }`: the raw run has more fuel per `next()` and at least as many passes -/
+theorem R_swallowAll_le (m : Nat) (tys : List Nat) : ∀ (k1 k2 : Nat) (s : St), k1 ≤ k2 →
+    R K s (swallowAll (layoutOps Y) m tys k1) (swallowAll (layoutOps Y) (m + K) tys k2)
+  | 0, _, _, _ => fun _ => trivial
+  | k1 + 1, 0, _, h => absurd h (by omega)
+  | k1 + 1, k2 + 1, s, h => by
+    unfold swallowAll
+    apply R_bind (R_tryConsume Y m tys)
+    intro a s'
+    cases a with
+    | none => exact R_pure _
+    | some _ => exact R_swallowAll_le m tys k1 k2 s' (by omega)
+
+theorem R_swallowAll (m : Nat) (tys : List Nat) :
+    R K s (swallowAll (layoutOps Y) m tys m) (swallowAll (layoutOps Y) (m + K) tys (m + K)) :=
+  R_swallowAll_le Y m tys m (m + K) s (Nat.le_add_right _ _)
+
 theorem R_consume (v : Variant) (m : Nat) (tys : List Nat) :
     R K s (consume v (layoutOps Y) m tys) (consume v (layoutOps Y) (m + K) tys) := by
   unfold consume
